@@ -89,8 +89,7 @@ func Auto(w http.ResponseWriter, r *http.Request, obj any) (err error) {
 			err = responseText(w, obj)
 			handled = true
 			break
-		case httpctype.MIMEXML:
-		case httpctype.MIMEXML2:
+		case httpctype.MIMEXML, httpctype.MIMEXML2:
 			err = XML(w, obj)
 			handled = true
 			break
